@@ -56,13 +56,16 @@ type AbsfsNFS struct {
 	dirCache         *DirCache               // Cache for directory entries
 	workerPool       *WorkerPool             // Worker pool for concurrent operations
 	metrics          *MetricsCollector       // Metrics collection and reporting
-	rateLimiter      *RateLimiter            // Rate limiter for DoS protection
 	exportServer     *Server                 // Server created by Export(), nil if not exported
 
 	// Options are stored as immutable snapshots behind atomic pointers.
 	// Readers load the pointer -- no lock needed.
 	tuning atomic.Pointer[TuningOptions]
 	policy atomic.Pointer[PolicyOptions]
+
+	// rateLimiter is the rate limiter for DoS protection (nil when disabled).
+	// UpdatePolicyOptions replaces it, so readers load it per request.
+	rateLimiter atomic.Pointer[RateLimiter]
 
 	// tuningMu serializes tuning updates to prevent lost-update races.
 	tuningMu sync.Mutex
